@@ -337,6 +337,11 @@ func (e Engine) Execute(sc *core.Scenario, st *core.Stats) (*core.Violation, boo
 		if pv != nil {
 			return s.panicViolation("InitChain", r, pv, stack), true
 		}
+		if serr != nil && e.Prop == "C14" && strings.Contains(serr.Error(), "validators with no voting power") {
+			// The genesis document passed its sanity check, but the validator set derived from it
+			// gives a staked validator no voting power (CometBFT refuses such a genesis).
+			return cViol("C14", "validator-power", "validator-power zero-at-genesis", fmt.Sprintf("replica %d cannot start from the generated (sanity-checked) genesis: %v", i, serr)), true
+		}
 		if serr != nil {
 			core.Harnessf("chain: replica %d start: %v", i, serr)
 		}
